@@ -587,3 +587,16 @@ META = {
         "memory-order adequacy of curr_queue_ / mode_ accesses (A-SC)",
     ],
 }
+
+
+# ---- C02 units reused (added after seeded change C10-3 was missed): "a hinted task runs every phase on the hinted worker" needs every
+# ---- re-queue of a woken task to carry the worker it ran on: set_thread_state passes the caller's hint to schedule_thread, and the
+# ---- retry helper set_active_state re-issues the request with hint = thread(last worker).  Same templates, same contracts as C02.
+_c02 = {}
+exec(compile(open("/verif/specs/C02/spec.py").read(), "/verif/specs/C02/spec.py", "exec"), _c02)
+for _u in _c02["UNITS"]:
+    if _u.name in ("sts.set_thread_state", "sts.set_active_state"):
+        _u.name = "c02." + _u.name
+        _u.template = "../C02/" + _u.template
+        UNITS.append(_u)
+META["trusted_base"] = list(META.get("trusted_base", [])) + ["units c02.* are the C02 units of the same name (specs/C02/sts.c, c02.h) with their trusted base"]
